@@ -5,7 +5,8 @@
    with everything the specification predicts about it; the laws below are checked by TLC on the
    model (e.g. FromVec o AsVec = id, Rot3Dz restricted to the plane = Rot2D). *)
 EXTENDS Mat, TLC, Json, CSV, IOUtils
-CONSTANT Kinds          \* which families of cases to enumerate
+CONSTANTS Kinds,         \* which families of cases to enumerate
+          Wide           \* BOOLEAN: larger pools (thorough tier)
 VARIABLES case, done
 R(n) == <<n,1>>
 Q(a,b) == Norm(a,b)
@@ -47,7 +48,11 @@ Q1 == <<Q(1,5), Q(2,5), Q(2,5), Q(4,5)>>          \* (1,2,2,4)/5
 Q2 == <<Q(-2,3), Q(1,3), Q(2,3), Z0>>             \* negative w: canonical form flips the sign
 Q3 == <<Q(1,2), Q(1,2), Q(-1,2), Q(1,2)>>
 Q4 == <<Q(2,7), Q(-3,7), Q(6,7), Z0>>
-Quats == {Q1, Q2, Q3, Q4}
+Q5 == <<Q(1,9), Q(4,9), Q(-8,9), Z0>>
+Q6 == <<Q(-2,11), Q(6,11), Q(9,11), Z0>>
+Q7 == <<Q(2,15), Q(5,15), Q(-14,15), Z0>>
+Q8 == <<Q(1,2), Q(-1,2), Q(-1,2), Q(-1,2)>>
+Quats == IF Wide THEN {Q1, Q2, Q3, Q4, Q5, Q6, Q7, Q8} ELSE {Q1, Q2, Q3, Q4}
 Pool2 == [ Homogeneous |-> {H3(R(1),R(2),R(0), R(0),R(1),R(1), Q(1,10),R(0),R(1)), H3(R(2),R(0),R(1), R(1),R(1),R(0), R(0),Q(1,4),R(2))},
            Affine |-> {M3(R(2),R(1),R(3), R(-1),R(3),R(0)), M3(Q(1,2),R(2),R(-1), R(0),R(4),Q(3,2))},
            Similarity |-> {M3(Q(6,5),Q(-8,5),R(1), Q(8,5),Q(6,5),R(-2)), M3(R(0),R(-3),R(2), R(3),R(0),R(5))},
@@ -66,7 +71,10 @@ Pool3 == [ Homogeneous |-> {H4a},
 Src2 == << <<R(0),R(0)>>, <<R(3),R(1)>>, <<R(1),R(4)>>, <<R(-2),R(2)>> >>
 Src3 == << <<R(0),R(0),R(1)>>, <<R(3),R(1),R(0)>>, <<R(1),R(4),R(2)>>, <<R(-2),R(2),R(-1)>>, <<R(1),R(-1),R(3)>> >>
 \* Pythagorean angles <<cos, sin>> in all four quadrants
-Angles == {<<Q(3,5),Q(4,5)>>, <<Q(-3,5),Q(4,5)>>, <<Q(-4,5),Q(-3,5)>>, <<Q(5,13),Q(-12,13)>>, <<Z0,O1>>, <<R(-1),Z0>>, <<Z0,R(-1)>>, <<Q(12,13),Q(5,13)>>}
+AnglesBase == {<<Q(3,5),Q(4,5)>>, <<Q(-3,5),Q(4,5)>>, <<Q(-4,5),Q(-3,5)>>, <<Q(5,13),Q(-12,13)>>, <<Z0,O1>>, <<R(-1),Z0>>, <<Z0,R(-1)>>, <<Q(12,13),Q(5,13)>>}
+AnglesMore == {<<Q(7,25),Q(24,25)>>, <<Q(-24,25),Q(7,25)>>, <<Q(-7,25),Q(-24,25)>>, <<Q(24,25),Q(-7,25)>>, <<Q(8,17),Q(15,17)>>, <<Q(-15,17),Q(-8,17)>>,
+               <<Q(20,29),Q(-21,29)>>, <<Q(-20,29),Q(21,29)>>, <<Q(99,101),Q(20,101)>>, <<Q(-99,101),Q(-20,101)>>, <<O1,Z0>>}
+Angles == IF Wide THEN AnglesBase \cup AnglesMore ELSE AnglesBase
 \* ================= cases ==================================================================
 VecCases(d, P) == UNION {{[kind |-> "vec", d |-> d, cls |-> c, M |-> m, q |-> <<>>] : m \in P[c]} : c \in DOMAIN P}
 RotVecCases == {[kind |-> "vec", d |-> 3, cls |-> "Rotation", M |-> QuatM(q), q |-> q] : q \in Quats}
@@ -75,14 +83,14 @@ AlCases == {[kind |-> "alvec", d |-> 2, cls |-> c, M |-> m, v |-> AsVec(c, 2, m2
               : <<c, m, m2>> \in {<<c, m, m2>> \in (DOMAIN Pool2 \ {"Homogeneous", "NonUniformScale"}) \X (UNION {Pool2[x] : x \in DOMAIN Pool2}) \X (UNION {Pool2[x] : x \in DOMAIN Pool2}) :
                                    m \in Pool2[c] /\ m2 \in Pool2[c]}}
       \cup {[kind |-> "alvec", d |-> 3, cls |-> "Rotation", M |-> QuatM(q), v |-> Canon(q2), src |-> Src3] : q \in {Q1, Q3}, q2 \in Quats}
-Rot2Cases == {[kind |-> "rot2", cs |-> a, turns |-> k, degrees |-> dg] : a \in Angles, k \in {-1, 0, 1}, dg \in BOOLEAN}
+Rot2Cases == {[kind |-> "rot2", cs |-> a, turns |-> k, degrees |-> dg] : a \in Angles, k \in (IF Wide THEN {-2, -1, 0, 1, 3} ELSE {-1, 0, 1}), dg \in BOOLEAN}
 Rot3Cases == {[kind |-> "rot3", axis |-> ax, cs |-> a, turns |-> k, degrees |-> dg] : ax \in {"x","y","z"}, a \in Angles, k \in {0, 1}, dg \in BOOLEAN}
 QuatCases == {[kind |-> "quat", q |-> q] : q \in Quats}
 AboutCases == {[kind |-> "about", obj |-> o, t |-> t] : o \in {"pointcloud", "trimesh", "image"},
                  t \in {Sc2(R(2),R(2)), Sc2(Q(1,2),Q(1,2)), Rot2(Q(3,5),Q(4,5)), Rot2(Z0,R(-1)), M3(O1,R(2),Z0, Z0,O1,Z0), M3(O1,R(1),Z0, R(-1),O1,Z0)}}
 ScaleCases == {[kind |-> "scalefac", factors |-> f, ndims |-> n] : f \in {<<R(2),R(2)>>, <<R(2),R(3)>>, <<Q(1,2),Q(1,2),Q(1,2)>>, <<R(1),R(2),R(1)>>, <<R(2),Z0>>, <<Z0,Z0,Z0>>}, n \in {0}}
                \cup {[kind |-> "scalefac", factors |-> <<f>>, ndims |-> n] : f \in {R(2), Q(1,4), Z0}, n \in {2, 3}}
-TcCases == {[kind |-> "tcoords", shape |-> <<h, w>>] : h \in 2..6, w \in 2..6}
+TcCases == {[kind |-> "tcoords", shape |-> <<h, w>>] : h \in 2..(IF Wide THEN 12 ELSE 6), w \in 2..(IF Wide THEN 12 ELSE 6)}
 Inv3Cases == {[kind |-> "inv3", cls |-> c, M |-> m] : <<c, m>> \in {<<c, m>> \in (DOMAIN Pool3) \X (UNION {Pool3[x] : x \in DOMAIN Pool3}) : m \in Pool3[c]}}
              \cup {[kind |-> "inv3", cls |-> "Rotation", M |-> QuatM(q)] : q \in Quats}
 Cases == (IF "vec" \in Kinds THEN VecCases(2, Pool2) \cup VecCases(3, [c \in DOMAIN Pool3 \ {"Similarity"} |-> Pool3[c]]) \cup RotVecCases ELSE {})
